@@ -12,7 +12,8 @@
 (* Focus = "render": template requests.  Focus = "store": the backing store   *)
 (* is edited from outside and the very next request is a resolution or a      *)
 (* plain get of one of the four candidates (no other backend access in        *)
-(* between); requests that make the backend re-read the store are rare.       *)
+(* between); requests that make the backend re-read the store are rare;       *)
+(* resolutions also run while existence checks of the backend fail (Faults).  *)
 (***************************************************************************)
 EXTENDS ConfigQuerySvc
 
@@ -36,15 +37,16 @@ G_Invalidate    == (dirty \/ \E e \in Entries : compiled[e] # NoSnap) /\ Invalid
 G_Update(e, i)  == ~dirty /\ Update(e, UpdCat[i]) /\ UNCHANGED last
 
 G_ExternalEdit(k, v) == ExternalEdit(k, v) /\ UNCHANGED last
-G_Resolve(k)         == Resolve(k) /\ UNCHANGED last
-G_GetX(k)            == GetX(k) /\ UNCHANGED last
+G_Resolve(k, F)      == Resolve(k, F) /\ UNCHANGED last
+G_GetX(k, F)         == GetX(k, F) /\ UNCHANGED last
 
 \* an edit is immediately followed by a resolution or a get of a candidate (or by one more edit)
 AfterEdit == req.op = "ExternalEdit"
 StoreNext ==
-  \/ \E k \in Keys : G_Resolve(k)
-  \/ AfterEdit /\ G_GetX(req.e)
-  \/ ~AfterEdit /\ \E k \in {"Pr", "Aa"} : G_GetX(k)
+  \/ \E k \in Keys : G_Resolve(k, {})
+  \/ \E k \in Keys, F \in Faults : G_Resolve(k, F)                        \* ... also while existence checks fail
+  \/ AfterEdit /\ G_GetX(req.e, {})
+  \/ ~AfterEdit /\ \E k \in {"Pr", "Aa"}, F \in {{}, AllFour} : G_GetX(k, F)
   \/ \E k \in Keys, v \in EditVals : (AfterEdit => k # req.e) /\ G_ExternalEdit(k, v)
   \/ ~AfterEdit /\ (G_Raw("D1e") \/ G_Update("D1e", 1) \/ G_Process("D1f", 2) \/ G_Invalidate)
 
